@@ -1,4 +1,5 @@
 //! Simulator kernel shared by all engines.
+pub mod entropy;
 pub mod log;
 pub mod pipe;
 pub mod proto;
@@ -55,10 +56,13 @@ pub struct Violation {
 /// Installs a panic hook which records panic messages + locations of the current thread
 /// into a thread-local list (and stays silent), returns nothing.  Panics are still unwound.
 pub mod panics {
-    use std::cell::RefCell;
-    thread_local! {
-        static PANICS: RefCell<Vec<String>> = const { RefCell::new(Vec::new()) };
-        static QUIET: std::cell::Cell<bool> = const { std::cell::Cell::new(false) };
+    use std::sync::{atomic::{AtomicBool, Ordering}, Mutex};
+    // Process-wide: a run executes on its own thread (in its own process), and blocking tasks
+    // of the code under test on further threads.
+    static PANICS: Mutex<Vec<String>> = Mutex::new(Vec::new());
+    static QUIET: AtomicBool = AtomicBool::new(false);
+    fn list() -> std::sync::MutexGuard<'static, Vec<String>> {
+        PANICS.lock().unwrap_or_else(|e| e.into_inner())
     }
     pub fn install() {
         let prev = std::panic::take_hook();
@@ -74,23 +78,24 @@ pub mod panics {
             } else {
                 "<non-string panic>".to_string()
             };
-            PANICS.with(|p| p.borrow_mut().push(format!("{loc}: {msg}")));
-            if !QUIET.with(|q| q.get()) {
+            list().push(format!("{loc}: {msg}"));
+            if !QUIET.load(Ordering::SeqCst) {
                 prev(info);
             }
         }));
     }
     pub fn quiet(q: bool) {
-        QUIET.with(|x| x.set(q));
+        QUIET.store(q, Ordering::SeqCst);
     }
     pub fn take() -> Vec<String> {
-        PANICS.with(|p| std::mem::take(&mut *p.borrow_mut()))
+        std::mem::take(&mut *list())
     }
     pub fn count() -> usize {
-        PANICS.with(|p| p.borrow().len())
+        list().len()
     }
     /// Panics recorded from index `from` on.
     pub fn since(from: usize) -> Vec<String> {
-        PANICS.with(|p| p.borrow()[from.min(p.borrow().len())..].to_vec())
+        let l = list();
+        l[from.min(l.len())..].to_vec()
     }
 }
